@@ -170,14 +170,60 @@ def _intlist(r):
     return [int(x) for x in a.ravel().tolist()]
 
 
+def _call_spec(args):
+    import pydl.pydlutils.sdss as S
+    kw = {k: _arg(v) for k, v in args.items()}
+    return S.sdss_specobjid(kw.pop('plate'), kw.pop('fiber'), kw.pop('mjd'), kw.pop('run2d'), **kw)
+
+
+def _mjd_convention_decides(args, want_ok):
+    """True when the same request, element by element with MJD as a Python int instead of an array, behaves correctly
+    (right id when want_ok, ValueError otherwise) - i.e. the failure is triggered by the array form of MJD alone."""
+    n = len(args['mjd'])
+    for i in range(n):
+        a = {k: (v if isinstance(v, str) else ([v[i]] if isinstance(v, list) else v)) for k, v in args.items()}
+        a['mjd'] = args['mjd'][i]
+        exp = expect_specid(a)
+        try:
+            got = _intlist(_call_spec(a))
+            if not (want_ok and exp[0] == 'ok' and got == exp[1]):
+                return False
+        except ValueError:
+            if want_ok:
+                return False
+        except Exception:  # noqa: BLE001
+            return False
+    return True
+
+
 def _trigger_spec(args, sigbase):
     """Identifiable trigger conditions seen in the code (kept apart so that signatures do not lump defects)."""
     r = args.get('run2d')
-    if isinstance(r, str) and r.startswith('v') and int(r[1:].split('_')[0]) < 5:
+    if isinstance(r, str) and r.startswith('v') and int(r[1:].split('_')[0]) < 5 and ':raised-' in sigbase:
         return sigbase + ':vN_M_P-with-N<5'
-    if isinstance(args.get('mjd'), list):
-        return sigbase + ':array-mjd'
+    if isinstance(args.get('mjd'), list) and all(_len(v) == len(args['mjd']) for v in args.values()):
+        if sigbase.endswith(':in-range-refused:ValueError') and _mjd_convention_decides(args, True):
+            return sigbase + ':array-mjd'
+        if sigbase.endswith(':out-of-range-accepted:mjd') and _mjd_convention_decides(args, False):
+            return sigbase + ':array-mjd'
     return sigbase
+
+
+def wrong_value_sig(fn, args, got, exp):
+    """[(sig, msg)] naming the fields whose bit ranges differ between the returned and the expected ids ([] if equal)."""
+    name, layout = ('sdss_objid', OBJ) if fn == 'objid' else ('sdss_specobjid', SPEC)
+    flds = []
+    for g, e in zip(got, exp):
+        if g != e:
+            for f in (touched(g ^ e, layout) if g >= 0 else ['negative']):
+                if f not in flds:
+                    flds.append(f)
+    if not flds:
+        return []
+    sig = '%s:layout:wrong-bits-in:%s' % (name, '+'.join(flds))
+    if fn != 'objid':
+        sig = _trigger_spec(args, sig)
+    return [(sig, 'got %s expected %s for %s' % (got[:3], exp[:3], args))]
 
 
 def check_pack(case):
@@ -216,16 +262,7 @@ def check_pack(case):
             return [('%s:result-not-integer' % name, repr(e))]
         if len(got) != len(exp[1]):
             return [('%s:result-length' % name, 'got %d ids, expected %d' % (len(got), len(exp[1])))]
-        flds = []
-        for g, e in zip(got, exp[1]):
-            if g != e:
-                for f in (touched(g ^ e, layout) if g >= 0 else ['negative']):
-                    if f not in flds:
-                        flds.append(f)
-        if flds:
-            return [(trig('%s:layout:wrong-bits-in:%s' % (name, '+'.join(flds))),
-                     'got %s expected %s for %s' % (got[:3], exp[1][:3], args))]
-        return []
+        return wrong_value_sig(fn, args, got, exp[1])
     _r, kind, fld = exp
     if exc is None:
         return [(trig('%s:%s-accepted:%s' % (name, kind, fld)), 'returned %s for %s' % (_intlist(r)[:3], args))]
@@ -276,11 +313,14 @@ def check_unwrap(case):
     except Exception as e:  # noqa: BLE001
         return [('%s:result-columns:%s' % (fn, type(e).__name__), repr(e))]
     if wrong:
-        opts = '' if fn == 'unwrap_objid' else ' run2d_integer=%s specLineIndex=%s' % (ri, li)
-        return [('%s:wrong-field:%s' % (fn, '+'.join(wrong)),
-                 'ids %s form %s%s: got %s expected %s' % (ids[:2], form, opts, [u[c].tolist()[:2] for c in wrong],
-                                                           [want[c][:2] for c in wrong]))]
+        return [(unwrap_sig(fn, wrong), 'ids %s form %s%s: got %s expected %s'
+                 % (ids[:2], form, '' if fn == 'unwrap_objid' else ' run2d_integer=%s specLineIndex=%s' % (ri, li),
+                    [u[c].tolist()[:2] for c in wrong], [want[c][:2] for c in wrong]))]
     return []
+
+
+def unwrap_sig(fn, wrong_cols):
+    return '%s:wrong-field:%s' % (fn, '+'.join(wrong_cols))
 
 
 def check_case(case):
@@ -340,54 +380,71 @@ def tasks(tier):
 
 
 # ------------------------------------------------------------------ vector helpers
-def _localise(acc, task, label, bad_idx, mk_case, vec_msg):
-    """Re-run flagged elements as single-element cases; fall back to a vector-level violation."""
+VALIDATE_PER_SIG = 3    # = mc.core.MAX_VIOL_PER_SIG_PER_TASK: the violations the runner may replay are all re-run singly
+
+
+def _localise(acc, task, label, bad, mk_case, vec_msg):
+    """Attribute the elements a vector call got wrong to single-element cases.
+
+    `bad` maps element index -> [(sig, msg)] derived from the vector result, or None when nothing per-element is
+    known (the whole call raised).  The first VALIDATE_PER_SIG elements of every signature (and every element without a
+    derived signature) are re-run as single-element calls, so that every stored violation replays; the rest are counted
+    under the derived signature.  If no single-element call reproduces, one vector-level violation is recorded."""
     found = False
-    for i in bad_idx:
+    for i in sorted(bad):
         case = mk_case(i)
-        res = check_case(case)
-        for sig, msg in (res or []):
+        derived = bad[i]
+        if derived and all(acc.viol_count[sig] >= VALIDATE_PER_SIG for sig, _m in derived):
+            found = True
+            for sig, msg in derived:
+                acc.violation(sig, case, msg)
+            continue
+        for sig, msg in (check_case(case) or []):
             found = True
             acc.violation(sig, case, msg)
-    if bad_idx and not found:
+    if bad and not found:
         acc.violation('%s:vector-call-only' % label, {'fn': 'vector', 'task': task}, vec_msg)
 
 
 def _bulk(acc, hashes, nontriv, n, bad_idx, label):
     bad = np.zeros(n, dtype=bool)
     if bad_idx:
-        bad[np.array(bad_idx, dtype=np.int64)] = True
+        bad[np.array(sorted(bad_idx), dtype=np.int64)] = True
     if (~bad).any():
         acc.bulk(hashes[~bad], nontriv[~bad], 'ok:' + label)
     if bad.any():
         acc.bulk(hashes[bad], nontriv[bad], 'bad:' + label)
 
 
-def _vector_pack(call, exp):
-    """indices where the vector call disagrees with exp (all of them on an exception / wrong length) + message."""
+def _vector_pack(fn, call, exp, mk_case):
+    """{index: derived [(sig, msg)] or None} for the elements of a vector packing call that disagree with exp."""
     try:
         got = _intlist(call())
     except Exception as e:  # noqa: BLE001
-        return list(range(len(exp))), repr(e)
+        return {i: None for i in range(len(exp))}, repr(e)
     if len(got) != len(exp):
-        return list(range(len(exp))), 'result length %d != %d' % (len(got), len(exp))
-    bad = [i for i, (g, e) in enumerate(zip(got, exp)) if g != e]
+        return {i: None for i in range(len(exp))}, 'result length %d != %d' % (len(got), len(exp))
+    bad = {i: wrong_value_sig(fn, mk_case(i)['args'], [g], [e]) for i, (g, e) in enumerate(zip(got, exp)) if g != e}
     return bad, 'wrong values at %d positions' % len(bad)
 
 
-def _vector_unwrap(call, want, shape):
+def _vector_unwrap(fn, call, want, shape):
     try:
         u = call()
         if u.shape != shape:
-            return list(range(shape[0])), 'shape %s' % (u.shape,)
-        bad = set()
+            return {i: None for i in range(shape[0])}, 'shape %s' % (u.shape,)
+        cols = {}
         for col, w in want.items():
             g = u[col].tolist()
             if g != w:
-                bad.update(i for i, (x, y) in enumerate(zip(g, w)) if x != y)
-        return sorted(bad), 'wrong fields at %d positions' % len(bad)
+                for i, (x, y) in enumerate(zip(g, w)):
+                    if x != y:
+                        cols.setdefault(i, []).append((col, x, y))
+        bad = {i: [(unwrap_sig(fn, [c for c, _x, _y in v]), 'vector call, element %d: got/expected %s' % (i, v))]
+               for i, v in cols.items()}
+        return bad, 'wrong fields at %d positions' % len(bad)
     except Exception as e:  # noqa: BLE001
-        return list(range(shape[0])), repr(e)
+        return {i: None for i in range(shape[0])}, repr(e)
 
 
 def _columns(layout, swept, vals, corners):
@@ -423,8 +480,9 @@ def obj_sweep(acc, task):
             return {'fn': 'objid', 'args': {k: ([v] if conv == 'array' else v) for k, v in t.items()}}
         return mk
     # array call
-    bad, msg = _vector_pack(lambda: S.sdss_objid(arr['run'], arr['camcol'], arr['field'], arr['objnum'], rerun=arr['rerun'],
-                                                 skyversion=arr['skyversion'], firstfield=arr['firstfield']), exp)
+    bad, msg = _vector_pack('objid', lambda: S.sdss_objid(arr['run'], arr['camcol'], arr['field'], arr['objnum'], rerun=arr['rerun'],
+                                                          skyversion=arr['skyversion'], firstfield=arr['firstfield']),
+                            exp, single('array'))
     _localise(acc, task, 'sdss_objid:array', bad, single('array'), msg)
     _bulk(acc, base + np.uint64(1), nontriv, n, bad, 'objid:array:sweep-' + f)
     # scalar calls
@@ -438,13 +496,13 @@ def obj_sweep(acc, task):
                 bad.append(i)
         except Exception:  # noqa: BLE001
             bad.append(i)
-    _localise(acc, task, 'sdss_objid:scalar', bad, single('scalar'), 'scalar loop')
+    _localise(acc, task, 'sdss_objid:scalar', {i: None for i in bad}, single('scalar'), 'scalar loop')
     _bulk(acc, base + np.uint64(2), nontriv, n, bad, 'objid:scalar:sweep-' + f)
     # unwrap from int64 / decimal strings
     want = {OBJ_COL[name]: cols[name] for name in OBJ_NAMES}
     for k, form in enumerate(('int', 'U', 'S')):
         a = _idarray(exp, form, True)
-        bad, msg = _vector_unwrap(lambda a=a: unwrap_objid(a), want, a.shape)
+        bad, msg = _vector_unwrap('unwrap_objid', lambda a=a: unwrap_objid(a), want, a.shape)
         _localise(acc, task, 'unwrap_objid:form-' + form, bad,
                   lambda i, form=form: {'fn': 'unwrap_objid', 'ids': [exp[i]], 'form': form}, msg)
         _bulk(acc, base + np.uint64(3 + k), nontriv, n, bad, 'unwrap_objid:%s:sweep-%s' % (form, f))
@@ -487,7 +545,8 @@ def spec_sweep(acc, task):
                     a['run2d'] = vstring(a['run2d'])
                 return {'fn': 'specobjid', 'args': a}
             return mk
-        bad, msg = _vector_pack(lambda: S.sdss_specobjid(arr['plate'], arr['fiber'], arr['mjd'], arr['run2d'], **lowkw), exp)
+        bad, msg = _vector_pack('specobjid', lambda: S.sdss_specobjid(arr['plate'], arr['fiber'], arr['mjd'], arr['run2d'], **lowkw),
+                                exp, single('array'))
         _localise(acc, task, 'sdss_specobjid:array', bad, single('array'), msg)
         _bulk(acc, base + np.uint64(1), nontriv, n, bad, 'specobjid:array:%s:sweep-%s' % (kind, f))
         fn = S.sdss_specobjid
@@ -507,7 +566,8 @@ def spec_sweep(acc, task):
                         bad.append(i)
                 except Exception:  # noqa: BLE001
                     bad.append(i)
-            _localise(acc, task, 'sdss_specobjid:scalar-' + conv, bad, single('scalar' if conv == 'int' else conv), 'scalar loop')
+            _localise(acc, task, 'sdss_specobjid:scalar-' + conv, {i: None for i in bad},
+                      single('scalar' if conv == 'int' else conv), 'scalar loop')
             _bulk(acc, base + np.uint64(2 + ci), nontriv, n, bad, 'specobjid:scalar-run2d-%s:%s:sweep-%s' % (conv, kind, f))
         k = 5
         for form in ('int', 'U', 'S'):
@@ -516,7 +576,8 @@ def spec_sweep(acc, task):
                 for li in (False, True):
                     want = {'plate': P, 'fiber': Q, 'mjd': M, 'run2d': R if ri else [vstring(r) for r in R],
                             ('index' if li else 'line'): L}
-                    bad, msg = _vector_unwrap(lambda a=a, ri=ri, li=li: S.unwrap_specobjid(a, run2d_integer=ri, specLineIndex=li),
+                    bad, msg = _vector_unwrap('unwrap_specobjid',
+                                              lambda a=a, ri=ri, li=li: S.unwrap_specobjid(a, run2d_integer=ri, specLineIndex=li),
                                               want, a.shape)
                     _localise(acc, task, 'unwrap_specobjid:form-' + form, bad,
                               lambda i, form=form, ri=ri, li=li, exp=exp: {'fn': 'unwrap_specobjid', 'ids': [exp[i]], 'form': form,
